@@ -40,7 +40,7 @@ ASSUMPTIONS = [
     'in-memory-vs-file entry points are judged only when the written reference reads back (pandas) with the same dtypes and values as the reference frame',
     'float differences are planted on a decimal grid (0.4 or 2 units of the last compared place) so that rounding is unambiguous',
 ]
-REQUIRED_MONITORS = ['history:same_reference_reused', 'oracle:must-pass', 'oracle:must-fail', 'failure:message_checked', 'inputs:hashed'] + \
+REQUIRED_MONITORS = ['inputs:relabelled_index', 'history:same_reference_reused', 'oracle:must-pass', 'oracle:must-fail', 'failure:message_checked', 'inputs:hashed'] + \
     ['entry:' + e for e in sorted(set(ENTRIES))] + ['reach:types_match', 'reach:single_col_diffs', 'reach:resolve_option_flag']
 REQUIRED_CLASSES = ['mut=%s' % m for m in sorted(set(MUTS))] + ['mut=key_crosses_condition'] + ['kind=%s' % k for k in KINDS]
 
@@ -240,7 +240,14 @@ def gen_case(rng, i):
     if 'row' in mut and opts['condition'] and mut['kind'] != 'key_crosses_condition':
         kv = base['cols'][0]['values'][mut['row']]
         mut['row_filtered_by_condition'] = not (kv < opts['condition']['k_lt'])
-    return {'base': base, 'actual': act, 'mut': mut, 'opts': opts, 'entry': entry}
+    case = {'base': base, 'actual': act, 'mut': mut, 'opts': opts, 'entry': entry}
+    if not entry.startswith('assertOnDisk') and rng.random() < 0.35:
+        # frames handed over in memory need not carry a default index (a filtered, re-sorted or relabelled frame):
+        # values correspond by position, whatever the row labels are
+        kinds = ['reversed', 'offset', 'shuffled', 'str', 'gaps']
+        case['index'] = {'act': rng.choice(kinds), 'ref': rng.choice(kinds + [None]) if '-' not in entry else None,
+                         'seed': rng.randrange(10 ** 6)}
+    return case
 
 
 def real_opts(o):
@@ -287,6 +294,19 @@ def run_case(ctx, case):
     except Exception as e:
         rec.note('harness could not build the frame (%s)' % type(e).__name__)
         return
+    if case.get('index'):
+        import random as _random
+        for which, df in (('ref', ref_df), ('act', act_df)):
+            k = case['index'].get(which)
+            n = len(df)
+            if k is None or n == 0:
+                continue
+            labels = {'reversed': list(range(n - 1, -1, -1)), 'offset': list(range(100, 100 + n)),
+                      'gaps': list(range(0, 2 * n, 2)), 'str': ['r%d' % t for t in range(n)],
+                      'shuffled': _random.Random(case['index']['seed']).sample(range(n), n)}[k]
+            df.index = labels
+        cls.append(('index=relabelled',))
+        rec.event('inputs:relabelled_index')
     h_ref, h_act = fp(ref_df), fp(act_df)
     rec.event('inputs:hashed')
     pre_ok = True
